@@ -9,7 +9,7 @@ import (
 	"github.com/stretchr/testify/require"
 )
 
-// Demonstrates F-C19-e (recorded, not repaired): a sort column name set through the
+// Demonstrates F-C19-e (repaired: the name is cleaned as a rooted path): a sort column name set through the
 // sort-columns API (JSON body {"indexName":..,"columns":["../../x"]}) is joined onto the
 // segment directory when the sort index of a rotated segment is written; a column name
 // with ../ segments (JSON keys may contain them) places the .srt file outside the
